@@ -23,6 +23,7 @@ import (
 
 func init() {
 	vs.RegisterHarness("VerifC14OracleAllocate", VerifC14OracleAllocate)
+	vs.RegisterHarness("VerifC14OracleShares", VerifC14OracleShares)
 	vs.RegisterHarness("VerifC14OracleRewardPercentageRange", VerifC14OracleRewardPercentageRange)
 }
 
@@ -45,7 +46,13 @@ func c14Int(c sdk.Coins, denom string) *big.Int { return c.AmountOf(denom).BigIn
 
 // VerifC14OracleAllocate: one oracle begin-block allocation from an arbitrary fee pool, vote set,
 // activity flags, reward percentage and community tax.
-func VerifC14OracleAllocate() {
+func VerifC14OracleAllocate() { verifC14OracleAllocate(false) }
+
+// VerifC14OracleShares: the same step and oracles with every validator registered and oracle-active, so that the
+// bound on the number of voters can be larger: decides the proportional split and its rounding.
+func VerifC14OracleShares() { verifC14OracleAllocate(true) }
+
+func verifC14OracleAllocate(allActive bool) {
 	nVotes := vs.Param("votes")
 	nDenoms := vs.Param("denoms")
 	withPre := vs.Param("prestate") != 0
@@ -87,13 +94,16 @@ func VerifC14OracleAllocate() {
 	sumPower := big.NewInt(0)
 	for i := 0; i < nVals; i++ {
 		registered[i] = true
-		if i == 0 {
+		if i == 0 && !allActive {
 			registered[i] = vs.Bool("registered")
 		}
 		if registered[i] {
 			staking.AddValidator(venv.ConsAddr(i), stakingtypes.Validator{OperatorAddress: venv.ValAddr(i).String()})
 		}
-		active[i] = vs.Bool("oracle_active")
+		active[i] = true
+		if !allActive {
+			active[i] = vs.Bool("oracle_active")
+		}
 		if active[i] {
 			k.SetValidatorStatus(ctx, venv.ValAddr(i), types.NewValidatorStatus(true, time.Unix(100, 0)))
 		} else if i%2 == 1 {
